@@ -251,11 +251,24 @@ def run(cx):
     inst_resync_guard(cx, "C02.c")
     inst_resend_pairing(cx, "C02.d")
     inst_emit_guards(cx, "C02.e")
+    # a Reliable packet is also "skipped" when the receiver turns it into a data-less packet because its
+    # allocation counter drifted (what is charged must be what is released, at both ends), when the frame
+    # window refuses the sender's resynchronisation after a fully lost window, or when an id comparison
+    # stops being modular
+    from props.C06 import inst_release, inst_sender_alloc_pair
+    inst_release(cx, "C02.i")
+    inst_sender_alloc_pair(cx, "C02.j")
+    from props.C11 import resync_acceptance
+    resync_acceptance(cx, "C02.k")
+    from props.idarith import id_arith_discipline
+    id_arith_discipline(cx, "C02.l")
+    from props.shared import half_connection_clock
+    half_connection_clock(cx, "C02.m")
 
 
 SELFTEST = [
     {"name": "offer next_packet_id regardless of resend_queue.len()",
-     "edits": [{"file": "src/half_connection/mod.rs", "old": "if self.resend_queue.len() == 0 && self.pending_queue.len() == 0 {", "new": "if self.pending_queue.len() == 0 {"}],
+     "edits": [{"file": "src/half_connection/mod.rs", "old": "                   self.resend_queue.len() == 0 && self.pending_queue.len() == 0 {", "new": "                   self.pending_queue.len() == 0 {"}],
      "expect": ["C02.c"]},
     {"name": "deliver regardless of the channel parent lead",
      "edits": [{"file": "src/half_connection/packet_receiver/mod.rs", "old": "                    if channel_parent_lead == 0 || channel_parent_lead > channel_delta {\n                        // A dud entry", "new": "                    if channel_parent_lead == 0 || channel_parent_lead > channel_delta || true {\n                        // A dud entry"}],
